@@ -2187,6 +2187,10 @@ def logOf : Res St → List Ev
   | .ok st => st.log
   | _ => []
 
+def chainOf : Res St → List Nat
+  | .ok st => keys st.list
+  | _ => []
+
 def isOk : Res St → Bool
   | .ok _ => true
   | _ => false
@@ -2197,9 +2201,10 @@ def isUb : Res St → Bool
 
 theorem runs_of_isOk {cfg : Cfg} {own : Owner} {beh : Behaviour} {fuel : Nat} {ops : List Op}
     (h : isOk (execOps cfg own beh fuel ops St.init) = true) :
-    ∃ st, execOps cfg own beh fuel ops St.init = .ok st ∧ st.log = logOf (execOps cfg own beh fuel ops St.init) := by
+    ∃ st, execOps cfg own beh fuel ops St.init = .ok st ∧ st.log = logOf (execOps cfg own beh fuel ops St.init) ∧
+      keys st.list = chainOf (execOps cfg own beh fuel ops St.init) := by
   cases hc : execOps cfg own beh fuel ops St.init with
-  | ok st => exact ⟨st, rfl, rfl⟩
+  | ok st => exact ⟨st, rfl, rfl, rfl⟩
   | ub w => rw [hc] at h; cases h
   | outOfFuel => rw [hc] at h; cases h
 
